@@ -65,7 +65,9 @@ func (r *newRevisionReconciler) Reconcile(ctx context.Context,
 		"latestRev", latestRevisionNumber)
 	controllerRef := metav1.GetControllerOf(conflictingObjectSet.ClientObject())
 	if !conflictingObjectSet.IsArchived() &&
-		conflictingObjectSet.GetRevision() >= latestRevisionNumber &&
+		// A revision of 0 means the ObjectSet has not been reconciled yet, which is
+		// exactly what a just created ObjectSet, missing from a slow cache, looks like.
+		(conflictingObjectSet.GetRevision() == 0 || conflictingObjectSet.GetRevision() >= latestRevisionNumber) &&
 		controllerRef != nil &&
 		controllerRef.UID == objectDeployment.ClientObject().GetUID() &&
 		equality.Semantic.DeepEqual(newObjectSet.GetTemplateSpec(), conflictingObjectSet.GetTemplateSpec()) {
